@@ -399,7 +399,7 @@ def run(rep, tier):
             rep.violation(sig, what, info)
     # ---- the shipped self-check rails with their real actions: long messages / prompt length limit (vf/props/c02_selfcheck.py)
     from vf.props import c02_selfcheck
-    for r in par.pmap(c02_selfcheck.explore, c02_selfcheck.tasks(tier)):
+    for r in list(par.pmap(c02_selfcheck.explore_stop, c02_selfcheck.stop_tasks(tier))) + list(par.pmap(c02_selfcheck.explore, c02_selfcheck.tasks(tier))):
         for k, v in r.items():
             if isinstance(v, int):
                 agg[k] = agg.get(k, 0) + v
